@@ -215,7 +215,15 @@ func (t *Ty) BuildObject() *schema.ObjectSchema {
 		if p.Default != nil {
 			def = StrP(p.Default.Text)
 		}
-		ps := schema.NewPropertySchema(p.Ty.Build(), nil, p.Required, p.RequiredIf, p.RequiredIfNot, p.Conflicts, def, nil)
+		// every built schema gets its own rule lists (an implementation writing into them must not
+		// reach the harness's description of the schema or another instance built from it)
+		own := func(l []string) []string {
+			if l == nil {
+				return nil
+			}
+			return append(make([]string, 0, len(l)), l...)
+		}
+		ps := schema.NewPropertySchema(p.Ty.Build(), nil, p.Required, own(p.RequiredIf), own(p.RequiredIfNot), own(p.Conflicts), def, nil)
 		if p.Disabled {
 			ps.Disable("harness")
 		}
